@@ -154,6 +154,16 @@ impl<const ROUNDS: usize> State<ROUNDS> {
         self.d = align.to_m128i();
     }
 
+    #[cfg(cryptoxide_verif)]
+    #[inline]
+    pub(crate) fn verif_set_counter64(&mut self, counter: u64) {
+        let mut align = Align128::zero();
+        align.from_m128i(self.d);
+        align.0[0] = counter as u32;
+        align.0[1] = (counter >> 32) as u32;
+        self.d = align.to_m128i();
+    }
+
     #[inline]
     pub(crate) fn increment(&mut self) {
         let mut align = Align128::zero();
